@@ -2102,6 +2102,12 @@ func (c *BytecodeCompiler) compileContinueExpressionNode(node *ast.ContinueExpre
 		return
 	}
 
+	if c.additionalAbortChecks {
+		// `continue` jumps straight to the next iteration,
+		// skipping the check compiled at the end of the loop body
+		c.emit(location.StartPos.Line, bytecode.CHECK_ABORT)
+	}
+
 	if !loop.returnsValueFromLastIteration {
 		if node.Value != nil {
 			c.compileNode(node.Value, false)
